@@ -5,7 +5,8 @@ Line driver for C09.  One scenario per line:
     run <flags> <stub> <ampl> <opts> <objno> <ncons> <nvars> <pcons> <pvars> <open> <flush> <fault> <code> <havex> <havepi>
 
 * `<flags>`: `-` or a string over `s e d i x` (wantsol, noecho, dashdash, info, invalid)
-* `<opts>`:  `-` or comma-separated tokens `o` (ok), `b` (bad), `v` (invalidValue), `w<n>` (wantsol=n)
+* `<opts>`:  `-` or comma-separated items: tokens `o` (ok), `b` (bad), `v` (invalidValue), `w<n>` (wantsol=n),
+             or an option file `F<0|1>:<tok>;<tok>;…` (1 = reading fails after these tokens)
 * `<fault>`: `none` or `<stage>:<raise>[:<code>]`
 Output: `<outcome> | good=<0/1> regular=<0/1>`; `bad-op` for anything that cannot be interpreted.
 No logic here: only parsing and calls of model functions.
@@ -22,6 +23,20 @@ def parseOptTok (s : String) : Option Opt :=
   else if s == "v" then some .invalidValue
   else if s.startsWith "w" then (s.drop 1).toNat?.map Opt.wantsol
   else none
+
+def allSome {α} : List (Option α) → Option (List α)
+  | [] => some []
+  | none :: _ => none
+  | some a :: xs => (allSome xs).map (a :: ·)
+
+/-- `F<0|1>:<tok>;<tok>;…` = option file (read failure flag, readable tokens), else a plain token -/
+def parseOptItem (s : String) : Option OptItem :=
+  if s.startsWith "F0:" || s.startsWith "F1:" then
+    let body := (s.drop 3).toString
+    let rf := s.startsWith "F1:"
+    let inner := if body == "" then some [] else allSome ((body.splitOn ";").map parseOptTok)
+    inner.map (fun ts => OptItem.optfile ts rf)
+  else (parseOptTok s).map OptItem.tok
 
 def parseStage : String → Option Stage
   | "ctor" => some .ctor | "init" => some .init | "openNL" => some .openNL | "header" => some .header
@@ -55,16 +70,11 @@ def parseFault (s : String) : Option (Option (Stage × Raise)) :=
 def parseBool : String → Option Bool
   | "0" => some false | "1" => some true | _ => none
 
-def allSome {α} : List (Option α) → Option (List α)
-  | [] => some []
-  | none :: _ => none
-  | some a :: xs => (allSome xs).map (a :: ·)
-
 def parseScenario (ws : List String) : Option Scenario :=
   match ws with
   | [flags, stub, ampl, opts, objno, ncons, nvars, pcons, pvars, op, fl, fault, code, hx, hp] => do
     let flags ← if flags == "-" then some [] else allSome (flags.toList.map parseFlag)
-    let opts ← if opts == "-" then some [] else allSome ((opts.splitOn ",").map parseOptTok)
+    let opts ← if opts == "-" then some [] else allSome ((opts.splitOn ",").map parseOptItem)
     let stub ← parseBool stub
     let ampl ← parseBool ampl
     let objno ← parseBool objno
